@@ -4,9 +4,9 @@ C(l, sk, ks, vi, vo, pr, co) == [label |-> l, skip |-> sk, keys |-> ks, vin |-> 
 KeyLists == {<<>>, <<"k1">>, <<"k2", "k1">>}
 \* sender: label, keys/primary, outgoing verification, protocol (encryption version), compression
 SCfgsQ == {C(l, FALSE, ks, TRUE, vo, pr, TRUE) : l \in {"", "blue"}, ks \in {<<>>, <<"k1">>}, vo \in BOOLEAN, pr \in {1, 2}}
-\* receiver: label, delegated label check, installed keys, incoming verification
-RCfgsQ == {C(l, sk, ks, vi, TRUE, 2, TRUE) : l \in {"", "blue"}, sk \in BOOLEAN, ks \in KeyLists, vi \in BOOLEAN}
+\* receiver: label, delegated label check, installed keys, incoming and outgoing verification (independent settings)
+RCfgsQ == {C(l, sk, ks, vi, vo, 2, TRUE) : l \in {"", "blue"}, sk \in BOOLEAN, ks \in KeyLists, vi \in BOOLEAN, vo \in BOOLEAN}
 SCfgsT == {C(l, FALSE, ks, TRUE, vo, pr, co) : l \in {"", "blue", "blu"}, ks \in {<<>>, <<"k1">>, <<"k3">>}, vo \in BOOLEAN, pr \in {1, 2, 5}, co \in BOOLEAN}
-RCfgsT == {C(l, sk, ks, vi, TRUE, 2, TRUE) : l \in {"", "blue", "blu"}, sk \in BOOLEAN, ks \in KeyLists \cup {<<"k3">>}, vi \in BOOLEAN}
+RCfgsT == {C(l, sk, ks, vi, vo, 2, TRUE) : l \in {"", "blue", "blu"}, sk \in BOOLEAN, ks \in KeyLists \cup {<<"k3">>}, vi \in BOOLEAN, vo \in BOOLEAN}
 AttacksAll == {"none", "body", "version", "relabel", "striplabel", "foreignkey", "plaintext", "crc"}
 =============================================================================
